@@ -353,6 +353,20 @@ func runCase(t *testing.T, c Case) kit.Verdict {
 			v.Fail("C04/no-convergence/sync-peer=inflated-height+empty-headers", "no convergence within 30 virtual minutes after the honest chain stopped changing: best block %d (block tip %d, filter tip %d), honest tip %d; an adversary advertising an inflated height and answering getheaders with nothing was present", bb.Height, bt, ft, honestTip.Height)
 			return
 		}
+		// A reorganisation of the honest chain to a branch with more
+		// work but fewer blocks: the client holds the honest chain's
+		// headers, but an honest peer's advertised height stays above it.
+		bth, _, _ := s.CS.BlockHeaders.ChainTip()
+		if bth != nil && bth.BlockHash() == honestTip.Hash && ft < bt {
+			for _, sp := range s.CS.Peers() {
+				for pi := 0; pi < c.Honest; pi++ {
+					if sp.Addr() == s.Peers[pi].Addr.String() && sp.LastBlock() > int32(honestTip.Height) {
+						v.Fail("C04/no-convergence/honest-chain-got-shorter", "no convergence within 30 virtual minutes after the honest chain stopped changing: block headers are at the honest tip %d but filter headers stay at %d (current=%v); honest peer %s had announced height %d before the honest side reorganised to a heavier but shorter branch", bt, ft, s.CS.IsCurrent(), sp.Addr(), sp.LastBlock())
+						return
+					}
+				}
+			}
+		}
 		fail("no-convergence", "no convergence within 30 virtual minutes after the honest chain stopped changing: best block %d (block tip %d, filter tip %d), honest tip %d, current=%v", bb.Height, bt, ft, honestTip.Height, s.CS.IsCurrent())
 	})
 	if res.Harness != "" {
